@@ -33,6 +33,8 @@ def main():
     demos = [f for f in os.listdir(src) if f.endswith(".rs")]
     assert demos, "no demo"
     log = {}
+    os.makedirs(os.path.join(WT, crate, "examples"), exist_ok=True)
+    feat = (" --features " + sys.argv[sys.argv.index("--features") + 1]) if "--features" in sys.argv else ""
     for d in demos:
         shutil.copy(os.path.join(src, d), os.path.join(WT, crate, "examples", d))
     names = [d[:-3] for d in demos]
@@ -40,8 +42,8 @@ def main():
     def run_demos(tag):
         res = {}
         for n in names:
-            rc, out = sh("cargo run --offline -q --example %s 2>&1 | tail -15" % n, cwd=os.path.join(WT, crate), timeout=900)
-            rc2, out2 = sh("cargo run --offline -q --example %s >/dev/null 2>&1; echo rc=$?" % n, cwd=os.path.join(WT, crate), timeout=900)
+            rc, out = sh("cargo run --offline -q --example %s%s 2>&1 | tail -15" % (n, feat), cwd=os.path.join(WT, crate), timeout=900)
+            rc2, out2 = sh("cargo run --offline -q --example %s%s >/dev/null 2>&1; echo rc=$?" % (n, feat), cwd=os.path.join(WT, crate), timeout=900)
             m = re.search(r"rc=(\d+)", out2)
             res[n] = {"rc": int(m.group(1)) if m else rc2, "tail": out[-600:]}
         log[tag] = res
